@@ -339,6 +339,9 @@ func FieldMenu() []FieldVariant {
 	add("F28-two-annotated-comments-shrinking", "TwoS string `json:\"two_s\" description:\"a long description of this field that an annotation replaces by a much shorter text, so that the field shrinks\"` /* @tag description:\"d\" */ // @tag valid:\"required\"", true)
 	add("F28-two-annotated-comments-growing", "TwoG string `json:\"g\"` /* @tag json:\"a_much_longer_name_than_before_so_that_the_field_grows_by_more_than_the_rest_of_the_line,omitempty\" */ // @tag valid:\"required\"", true)
 	add("F28-plain-then-annotated-comment", "TwoP string `json:\"two_p\"` /* 说明 */ // @tag valid:\"required\"", true)
+	// the annotation overrides the first key of a generated tag (protobuf itself), alone and together with new keys
+	add("F29-override-the-protobuf-key", "PbKey string `"+pbTag+"` // @tag valid:\"required\" protobuf:\"bytes,1,req,name=name\"", true)
+	add("F29-override-every-existing-key", "AllKeys string `"+pbTag+"` // @tag json:\"n\" protobuf:\"bytes,2,opt,name=n\"", true)
 	// keys that are a suffix / prefix of another key, same value: key matching must be on whole keys
 	add("F17-key-suffix-of-existing", "KeySuffix string `binding_valid:\"required\" json:\"ks\"` // @tag valid:\"required\"", true)
 	add("F17-key-prefix-of-existing", "KeyPrefix string `json:\"kp\" validx:\"required\"` // @tag valid:\"required\" json:\"kp\"", true)
@@ -370,6 +373,10 @@ func DupKeyMenu() []FieldVariant {
 		{"D16-key-twice-in-existing-tag-not-overridden", "Twice2 string `json:\"name\" json:\"nick\"` // @tag valid:\"required\"", true},
 		// two annotated comments behind one field naming the same key (which one wins is not specified)
 		{"D17-two-annotated-comments-same-key", "TwoK string `json:\"two_k_with_a_long_name_that_will_be_replaced_by_something_short\"` /* @tag json:\"a\" */ // @tag json:\"b\"", true},
+		// an annotation value holding a back quote cannot be written into a raw-string tag literal as it is (what the tool
+		// should write is not specified; that a second run changes nothing is)
+		{"D18-back-quote-in-annotation-value", "BackQ string `json:\"bq\"` // @tag valid:\"required|请填写`手机号`\"", true},
+		{"D18-back-quote-in-annotation-value-generated-tag", "BackP string `" + pbTag + "` // @tag valid:\"re='^`'\" json:\"p\"", true},
 		{"D11-only-unrecognised-text", "OnlyU string `bson:\"\"` // @tag valid:\"required\"", true},
 	}
 }
